@@ -34,6 +34,12 @@ structure Setup (σ ω : Type) where
   /-- marshalling raises a Python exception before the native call (e.g. default `t_max` of an empty
   `t_sample`); `_script` and `_simulation_unfinished` are already assigned at that point -/
   raises : Bool
+  /-- EXTERNAL ASSUMPTION 1 (C14's hypothesis): the initial-state processing of this script returns — the
+  redistribution loop of `GenerateStochasticDistribution` terminates.  `false`: `setup` never returns. -/
+  initReturns : Bool := true
+  /-- EXTERNAL ASSUMPTION 2 (size assumption): every `std::poisson_distribution<int>` call of this run returns —
+  amounts and Poisson means stay below 2³¹.  `false`: a drive call never returns. -/
+  stepReturns : Bool := true
 
 /-- the C++ algorithm object -/
 structure NSim (σ ω : Type) where
@@ -42,6 +48,8 @@ structure NSim (σ ω : Type) where
   sim : SimSt σ ω
   /-- n_species · n_meshes -/
   size : Nat
+  /-- see `Setup.stepReturns` -/
+  stepReturns : Bool := true
 
 /-- globals of `engine.cpp` -/
 structure Native (σ ω : Type) where
@@ -98,6 +106,8 @@ inductive Obs (ω : Type) where
   | garbled
   | raised
   | fault
+  /-- the call never returns (only under a violated external assumption) -/
+  | hang
   deriving DecidableEq
 
 namespace World
@@ -120,6 +130,9 @@ def setCur (n : Native σ ω) (p : Ptr (NSim σ ω)) : Native σ ω :=
 
 def crash (w : World σ ω) : World σ ω × Obs ω := ({ w with crashed := true }, .fault)
 
+/-- a call that never returns: nothing happens afterwards -/
+def hangs (w : World σ ω) : World σ ω × Obs ω := ({ w with crashed := true }, .hang)
+
 /-- an entry point: `if(global_algo_freed) return 0;` (answer `dead`), else run `f` on the current algorithm
 object, which must be live -/
 def onSim (w : World σ ω) (dead : World σ ω × Obs ω) (f : NSim σ ω → World σ ω × Obs ω) : World σ ω × Obs ω :=
@@ -135,13 +148,18 @@ def putSim (w : World σ ω) (m : NSim σ ω) (s : SimSt σ ω) : World σ ω :=
 /-- `engineexport_initialize_*` for a valid script: `global_space_type = …; global_*_algo = new …;
 global_algo_freed = false; …->Init(…)` (a previous live object is leaked, not freed) -/
 def nativeInit (n : Native σ ω) (sc : Setup σ ω) : Native σ ω :=
-  let m : NSim σ ω := { cfg := sc.cfg, algo := sc.algo, sim := SimSt.init sc.algo sc.cfg sc.x0, size := sc.stateSize }
+  let m : NSim σ ω := { cfg := sc.cfg, algo := sc.algo, sim := SimSt.init sc.algo sc.cfg sc.x0, size := sc.stateSize,
+                        stepReturns := sc.stepReturns }
   let n1 : Native σ ω := { n with spaceType := sc.spaceType }
   { (setCur n1 (.live m)) with freed := false }
 
 /-- a drive call: store `unfinished` in the wrapper, return it as a bool -/
 def drive (w : World σ ω) (o : Obj) (m : NSim σ ω) (r : SimSt σ ω × Bool) : World σ ω × Obs ω :=
   ((w.putSim m r.1).setObj o { (w.obj o) with unfinished := r.2 }, .bool r.2)
+
+/-- a drive call on a live simulation: it returns only if the run's Poisson calls do (external assumption 2) -/
+def driveIf (w : World σ ω) (o : Obj) (m : NSim σ ω) (r : SimSt σ ω × Bool) : World σ ω × Obs ω :=
+  if m.stepReturns then w.drive o m r else w.hangs
 
 /-- a drive entry point on a released / never set-up library returns 0: "finished" -/
 def driveDead (w : World σ ω) (o : Obj) : World σ ω × Obs ω :=
@@ -172,13 +190,14 @@ def call (w : World σ ω) (o : Obj) (c : Call σ ω) : World σ ω × Obs ω :=
     | .setup sc =>
       let w1 := w.setObj o { unfinished := true, script := some sc }
       if sc.raises then (w1, .raised)
-      else ({ w1 with native := nativeInit w1.native sc }, .unit)
-    | .iterate => w.onSim (w.driveDead o) fun m => w.drive o m (SimSt.iterate m.algo m.cfg m.sim)
+      else if sc.initReturns then ({ w1 with native := nativeInit w1.native sc }, .unit)
+      else w1.hangs
+    | .iterate => w.onSim (w.driveDead o) fun m => w.driveIf o m (SimSt.iterate m.algo m.cfg m.sim)
     | .iterateN n =>
       -- `LibRDEngine.iterate_n`: a non-positive count returns the current status without a native call
       if n ≤ 0 then (w, .bool (w.obj o).unfinished)
-      else w.onSim (w.driveDead o) fun m => w.drive o m (SimSt.iterateN m.algo m.cfg n.toNat m.sim)
-    | .run k => w.onSim (w.driveDead o) fun m => w.drive o m (SimSt.run m.algo m.cfg k m.sim)
+      else w.onSim (w.driveDead o) fun m => w.driveIf o m (SimSt.iterateN m.algo m.cfg n.toNat m.sim)
+    | .run k => w.onSim (w.driveDead o) fun m => w.driveIf o m (SimSt.run m.algo m.cfg k m.sim)
     | .sample => w.onSim (w, .unit) fun m => (w.putSim m (m.sim.sample m.algo), .unit)
     | .getProgress => w.onSim (w, .num 0) fun m => (w, .num (SimSt.progress m.cfg m.sim))
     | .isComplete => (w, .bool (!(w.obj o).unfinished))
